@@ -160,6 +160,8 @@ class LinHooks:
         if isinstance(op, (ast.Add, ast.Sub)) and (vec(l) or vec(r)) and lin(l) is not None and lin(r) is not None and (isinstance(l, LinV) or isinstance(r, LinV) or vec(l) and vec(r) or isinstance(l, E.Num) or isinstance(r, E.Num)):
             if isinstance(l, E.Num) and isinstance(r, E.Num):
                 return NotImplemented
+            if isinstance(op, ast.Sub) and isinstance(l, E.Num) and not eng.in_spec():
+                return eng.abort(st)          # number - table: Factor has no __rsub__ (TypeError)
             return combine(lin(l), lin(r), 1 if isinstance(op, ast.Add) else -1)
         if isinstance(op, ast.Mult):
             if isinstance(l, E.Num) and vec(r):
@@ -178,7 +180,11 @@ class LinHooks:
 
     def unary(self, eng, st, op, v, node):
         if isinstance(op, ast.USub) and isinstance(v, (LinV, E.Obj)) and lin(v) is not None and not isinstance(v, E.Num):
-            return scale(lin(v), z3.RealVal(-1))
+            if eng.in_spec():
+                return scale(lin(v), z3.RealVal(-1))
+            # the library's Factor defines neither __neg__ nor __rsub__: `-table` raises TypeError, the path ends here (and the
+            # reachability probes of the function report it)
+            return eng.abort(st)
         return NotImplemented
 
     def call(self, eng, st, name, recv, args, kw, node):
